@@ -56,9 +56,10 @@ TIE = {
     'gen_modules': MODULE_ORDER,
     'chain': ['MalVerif.Py.AbsLegacy', 'MalVerif.Py.TieLegacyBase', 'MalVerif.Py.TieLegacyOldCore',
               'MalVerif.Py.TieLegacyOldAssets', 'MalVerif.Py.TieLegacyOldAssoc', 'MalVerif.Py.TieLegacyOldAtt',
-              'MalVerif.Py.TieLegacyOld', 'MalVerif.Py.TieLegacyScad', 'MalVerif.PropsGen.C18'],
+              'MalVerif.Py.TieLegacyOld', 'MalVerif.Py.TieLegacyScad', 'MalVerif.Py.TieLegacyScadEmit',
+              'MalVerif.Py.TieLegacyWf', 'MalVerif.Py.TieLegacyScadAgree', 'MalVerif.PropsGen.C18'],
     'needs': {'C18': ['MalVerif.Py.TieLegacyBase', 'MalVerif.Py.TieLegacyOld', 'MalVerif.Py.TieLegacyScad',
-                      'MalVerif.PropsGen.C18']},
+                      'MalVerif.Py.TieLegacyScadAgree', 'MalVerif.PropsGen.C18']},
     'sources': {'C18': 'translators/updater.py: load_model_from_older_version, load_model_from_version_0_0_39 '
                        '(_process_model, load_from_json, load_from_yaml); translators/securicad.py: '
                        'load_model_from_scad_archive (after the zip / XML parsing); they call the translated '
